@@ -138,10 +138,13 @@ static ssize_t vh_readlink(const char* p, char* buf, size_t n) { size_t r; captu
     if (nd8() & 1) { errno = any_errno(); return -1; } r = nd8(); if (r > n) r = n; return (ssize_t)r; }
 
 /* ------------------------------------------------------------------ process services */
+#ifndef CLK_SEC_MASK
+#define CLK_SEC_MASK 0xFFFFF
+#endif
 static struct timespec clk_last[2]; static int clk_calls; static struct timespec clk_given;
 static int vh_clock_gettime(clockid_t id, struct timespec* ts) { logc(F_CLOCK_GETTIME, (long long)id, 0, 0);
     if (nd8() & 1) { errno = any_errno(); return -1; }
-    ts->tv_sec = (time_t)(nd32() & 0xFFFFF); ts->tv_nsec = nd_nsec();
+    ts->tv_sec = (time_t)(nd32() & CLK_SEC_MASK); ts->tv_nsec = nd_nsec();
     if (id == CLOCK_MONOTONIC && clk_calls > 0) { /* contract: non-decreasing */
         V_ASSUME(ts->tv_sec > clk_last[0].tv_sec || (ts->tv_sec == clk_last[0].tv_sec && ts->tv_nsec >= clk_last[0].tv_nsec)); }
     if (id == CLOCK_MONOTONIC) { clk_last[0] = *ts; clk_calls++; }
@@ -205,6 +208,9 @@ static char* vh_strndup(const char* s, size_t n) { size_t k, l = 0; char* d; for
 #define fsync vh_fsync
 #define fdatasync vh_fdatasync
 #define pthread_create vh_pthread_create
+#define srandom(x) ((void)(x))
+#define random() ((long)nd32())
+#define time(x) ((time_t)nd32())
 
 /* the real implementation */
 #include "wasi.c"
